@@ -177,3 +177,47 @@ package keeper
 //@   ensures ledger_frame: forall a:Bytes :: forall d:Str :: a != REQ && a != WD(owner) ==> bal(a, d) == old(bal(a, d))
 //@   ensures others: (forall a:Bytes :: forall d:Str :: a != owner ==> has(ownerEarned, a, d) == old(has(ownerEarned, a, d)) && get(ownerEarned, a, d) == old(get(ownerEarned, a, d)))
 //@ end
+
+// ---------------------------------------------------------------------------------------------
+// Prices and the charge for a new batch (C07)
+
+//@ family bindings key types.GetServiceBindingKey value types.ServiceBinding
+//@ family pricings key types.GetPricingKey value types.Pricing
+//@ family volumes  key types.GetRequestVolumeKey value gogotypes.UInt64Value
+
+// The fee of one request: the list price with the time and volume discounts applied, truncated per coin
+// (assumed contract: discount lookup and decimal rounding are not modelled; with no discount it is the list price).
+//@ define DT(svc, prov) = uf("discount_by_time", get(pricings, svc, prov), time)
+//@ define DV(c, svc, prov) = uf("discount_by_volume", get(pricings, svc, prov), ite(has(volumes, c, svc, prov), get(volumes, c, svc, prov).Value, 0))
+//@ define FEE(c, svc, prov, d) = uf("discounted", amt(get(pricings, svc, prov).Price, d), DT(svc, prov), DV(c, svc, prov))
+//@ func Keeper.GetPrice
+//@   property C07
+//@   trusted
+//@   returns fee
+//@   ensures fee_def: forall d:Str :: amt(fee, d) == FEE(consumer, binding.ServiceName, addr(binding.Provider), d) && amt(fee, d) >= 0
+//@   ensures no_discount: DT(binding.ServiceName, addr(binding.Provider)) == DEC_ONE && DV(consumer, binding.ServiceName, addr(binding.Provider)) == DEC_ONE
+//@                        ==> (forall d:Str :: amt(fee, d) == amt(get(pricings, binding.ServiceName, addr(binding.Provider)).Price, d))
+//@ end
+// The price converted to the base denomination through the oracle feed (assumed: reads only).
+//@ func Keeper.GetExchangedPrice
+//@   property C07
+//@   trusted
+//@   returns price, rawDenom, err
+//@ end
+
+// Which providers take part in a batch and what the consumer is charged for it.
+//@ func Keeper.FilterServiceProviders
+//@   property C07
+//@   returns selected, total, rawDenom, err
+//@   invariant #1 idx:  rangeindex >= 0 - 1 && rangeindex < len(providers)
+//@   invariant #1 none: len(newProviders) == 0 ==> (forall d:Str :: amt(totalPrices, d) == 0)
+//@   invariant #1 charges_recorded_fee: rangeindex == 0 && len(newProviders) == 1 ==> newProviders[0] == providers[0]
+//@                       && (forall d:Str :: amt(totalPrices, d) == FEE(consumer, serviceName, providers[0], d))
+//@   invariant #1 sel:  len(newProviders) <= rangeindex + 1 && len(newProviders) >= 0
+// nobody selected: nothing is charged
+//@   ensures none_selected: err == nil && len(selected) == 0 ==> (forall d:Str :: amt(total, d) == 0)
+// one candidate, selected: the charge is the fee that buildRequest records on the request
+//@   ensures charged_is_recorded_fee: err == nil && len(providers) == 1 && len(selected) == 1 && get(bindings, serviceName, providers[0]).Provider == bech(providers[0])
+//@                        && get(bindings, serviceName, providers[0]).ServiceName == serviceName
+//@                        ==> (forall d:Str :: amt(total, d) == FEE(consumer, serviceName, providers[0], d))
+//@ end
